@@ -612,6 +612,36 @@ def c05l(prog, rep):
             elif render(res) != "False":
                 exact = False
         searches.append((c, nm, true_kinds, exact))
+    # the same search written as a loop with an early `return true`, in parse_routine or in a helper it calls (`is_bodyless_routine`)
+    from util import family_bodies
+    for body, anchor, chain in family_bodies(prog, b):
+        if body.kind == "Closure":
+            continue
+        for h, L in body.loops().items():
+            nx = [c for c in body.calls() if c.bb == h and (c.callee or "").endswith("Iterator::next") and "get_current_logical_line_token_types(" in canon(body, c.args[0])]
+            if len(nx) != 1:
+                continue
+            tt = body.blocks[nx[0].t["target"]]["term"]
+            some = ([t_ for v, t_ in tt.get("targets", []) if v == 1] or [tt.get("otherwise")])[0]
+            try:
+                tl = Table(prog, body, start=some, stop={h}, inline=1)
+            except TooComplex:
+                continue
+            true_kinds, exact = set(), True
+            for (cons, res), end in zip(tl.rows, tl.ends):
+                kw = [c2[2] for c2 in cons if c2[0] == "is" and "@Keyword.0" in str(c2[1])]
+                other = [c2 for c2 in cons if not (c2[0] in ("is", "not") and ("Keyword" in str(c2[2]) or "@Keyword.0" in str(c2[1])))]
+                if end is None:                    # leaves the loop by returning
+                    if render(res) == "True" and len(kw) == 1 and not other:
+                        true_kinds.add(kw[0])
+                    else:
+                        exact = False
+                elif kw and kw[0] in BODYLESS_DIRECTIVES:
+                    exact = False                  # goes on although the directive was found
+            # where the answer is available in parse_routine: the loop itself, or the call of the helper that contains it
+            site = nx[0] if body is b else (chain[0][1] if chain else None)
+            if site is not None:
+                searches.append((site, "loop", true_kinds, exact))
     good = [s_ for s_ in searches if s_[3] and s_[2] == BODYLESS_DIRECTIVES]
     reach = False
     for c, nm, kinds, exact in good:
